@@ -9,7 +9,7 @@ From Coq Require Import QArith List Bool ZArith.
 From SF Require Import Base.QKernel Model.Validate Model.ValidateSpec
   Proofs.Validate_kernel Proofs.Validate_graph Proofs.Validate_proofs Proofs.Validate_translate
   Proofs.Validate_repr Proofs.Validate_sound
-  Base.GeomAST Base.Planar Base.Planar_C03 Proofs.Planar_slab_base Proofs.Validate_ogc Proofs.Validate_jordan Proofs.Validate_sound_all Proofs.Validate_total.
+  Base.GeomAST Base.Planar Base.Planar_C03 Proofs.Planar_slab_base Proofs.Validate_ogc Proofs.Validate_jordan Proofs.Validate_sound_all Proofs.Validate_total Proofs.Validate_idx Proofs.Validate_mpoly.
 Import ListNotations.
 Open Scope Q_scope.
 
@@ -388,4 +388,41 @@ Example slow_case_nonvacuous :
   let bi := poly_lines [[(0, 0); (4, 0); (4, 4); (0, 4); (0, 0)]] in
   let bj := poly_lines [[(4, 4); (6, 4); (6, 6); (4, 4)]] in
   boundary_inter bi bj = (true, false) /\ poly_not_inside_poly bi bj = None /\ poly_not_inside_poly bj bi = None.
+Proof. vm_compute. auto. Qed.
+
+(* ---------------------------------------------------------------- the literal IsSimple *)
+(* is_simple_idx is the line-by-line transcription of LineString.IsSimple with the index walks of
+   geom/type_sequence.go (getLine, firstAndLastLines, previousLine, nextLine; the R-tree search
+   replaced by the scan of all j).  It computes the same boolean as is_simple, so ring_simple_spec
+   and the translation / reflection / reversal / rotation theorems hold of the literal form too. *)
+Theorem is_simple_idx_is_is_simple : forall ps : list pt, is_simple_idx ps = is_simple ps.
+Proof. exact is_simple_idx_eq_lemma. Qed.
+Print Assumptions is_simple_idx_is_is_simple.
+Example is_simple_idx_nonvacuous :
+  is_simple_idx [(0, 0); (0, 0); (4, 0); (4, 0); (4, 4); (0, 4); (0, 0)] = true
+  /\ is_simple_idx [(0, 0); (4, 4); (4, 4); (4, 0); (0, 4); (0, 0)] = false.
+Proof. vm_compute. auto. Qed.
+
+(* ---------------------------------------------------------------- MultiPolygon, a first all-points step *)
+(* Soundness of the FAST case of checkMultiPolygonConstraints for two members without holes (no
+   repeated consecutive vertices): when the boundaries have no common point and each start vertex
+   is outside the other member, no point of Q^2 is interior to both.
+   NOT PROVED (stated as the open part of "MultiPolygon soundness"): members with holes (needs
+   "a shell is not inside its own hole" with touching rings), and the slow case, where boundaries
+   meet at points and validatePolyNotInsidePoly probes only the pieces of segments that carry an
+   intersection point.  Both are covered by the correspondence run (verdict = ogc_valid, whose
+   interiors_disjoint clause is verified for all points). *)
+Theorem multipolygon_fast_case_sound_partial : forall A B : list pt,
+  as_lines A = ring_edges A -> as_lines B = ring_edges B ->
+  has_2_distinct A = true -> has_2_distinct B = true -> pts_closed A = true -> pts_closed B = true ->
+  boundary_inter (poly_lines [A]) (poly_lines [B]) = (false, false) ->
+  mpoly_pair [A] [B] = None ->
+  forall q, ~ (locate (g_poly [A]) q = Interior /\ locate (g_poly [B]) q = Interior).
+Proof. exact multipolygon_fast_case_sound_lemma. Qed.
+Print Assumptions multipolygon_fast_case_sound_partial.
+Example multipolygon_fast_case_nonvacuous :
+  let A := [(0, 0); (4, 0); (4, 4); (0, 4); (0, 0)] in
+  let B := [(5, 0); (8, 0); (8, 3); (5, 0)] in
+  boundary_inter (poly_lines [A]) (poly_lines [B]) = (false, false) /\ mpoly_pair [A] [B] = None
+  /\ mpoly_pair [A] [[(1, 1); (2, 1); (2, 2); (1, 1)]] = Some RPolysMultiTouch.
 Proof. vm_compute. auto. Qed.
